@@ -345,5 +345,5 @@ func TestVerifC09Multiplex(t *testing.T) {
 // mosn.io/mosn/pkg/verifrt/c09/sched.go. Built with the "proxy" rewrite set (pkg/stream,
 // pkg/stream/xprotocol, pkg/upstream/cluster instrumented).
 func TestVerifC09PingPongSchedules(t *testing.T) {
-	c09.MainSchedules(t, c09PingPong{}, c09.DefaultScenarios(), 2, 3, 3)
+	c09.MainSchedules(t, c09PingPong{}, append(c09.DefaultScenarios(), c09.DoomedScenarios(false)...), 2, 3, 3)
 }
